@@ -262,8 +262,13 @@ impl Mask {
         let tn = &t.name;
         let views: Vec<&String> = self.world.views.keys().collect();
         Some(match rng.below(8) {
-            0 | 1 => {
+            0 => {
                 let q = format!("SELECT {ca} AS a, {cb} AS b FROM {tn} WHERE {pred}");
+                (format!("CREATE VIEW {name} AS {q}"), q)
+            }
+            1 => {
+                // same names at other positions (b first)
+                let q = format!("SELECT {cb} AS b, {ca} AS a FROM {tn} WHERE {pred}");
                 (format!("CREATE VIEW {name} AS {q}"), q)
             }
             2 => {
@@ -336,6 +341,10 @@ impl Mask {
         let mut op = Op::new(Kind::Probe, by_view);
         op.cols = vec![by_derived, by_cte];
         op.name = Some("view_family".into());
+        // which view, in which definition, the renderings were written for (a minimised history that
+        // lost the CREATE [OR REPLACE] VIEW must not compare them)
+        op.table = Some(vn.clone());
+        op.pred = Some(q.clone());
         Some(op)
     }
 
@@ -472,6 +481,25 @@ impl Scenario for Mask {
                 let v = rng.pick(&vs).clone();
                 return Some(Op::new(Kind::DropView, format!("DROP VIEW {}", v)).named(&v));
             }
+            // CREATE OR REPLACE of an existing view that no other view is built on
+            let replaceable: Vec<String> = self
+                .world
+                .views
+                .iter()
+                .filter(|(n, q)| !self.world.views.iter().any(|(m, oq)| m != *n && oq.contains(&format!("({}) AS i", q))))
+                .map(|(n, _)| n.clone())
+                .collect();
+            if !replaceable.is_empty() && rng.chance(1, 3) {
+                let name = rng.pick(&replaceable).clone();
+                if let Some((ddl, q)) = self.view_def(rng, &name) {
+                    if !q.contains(&format!("({}) AS i", self.world.views[&name])) {
+                        let mut op = Op::new(Kind::CreateView, ddl.replacen("CREATE VIEW", "CREATE OR REPLACE VIEW", 1)).named(&name);
+                        op.pred = Some(q);
+                        op.fault = "replace-view".into();
+                        return Some(op);
+                    }
+                }
+            }
             let name = self.world.fresh_name("v");
             if let Some((ddl, q)) = self.view_def(rng, &name) {
                 let mut op = Op::new(Kind::CreateView, ddl).named(&name);
@@ -526,6 +554,11 @@ impl Scenario for Mask {
                 Step::Continue
             }
             Kind::Probe => {
+                if let (Mode::Views, Some(v), Some(def)) = (self.mode, &op.table, &op.pred) {
+                    if self.world.views.get(v) != Some(def) {
+                        return Step::EndForeign("probe_written_for_another_view_definition".into());
+                    }
+                }
                 let mut renderings = vec![op.sql.clone()];
                 renderings.extend(op.cols.iter().cloned());
                 let configs = self.configs();
@@ -598,6 +631,12 @@ impl Scenario for Mask {
                                     }
                                     (Out::Err(_), Out::Err(_)) => {}
                                     (x, y) => {
+                                        // a probe over an object the (minimised) history no longer creates says
+                                        // nothing about the property
+                                        let missing = |o: &Out| matches!(o, Out::Err(e) if e.contains("not found") && (e.contains("Table") || e.contains("View")));
+                                        if self.mode == Mode::Views && (missing(x) || missing(y)) {
+                                            return Step::EndForeign("probe_object_missing".into());
+                                        }
                                         return cx.violation(&oracle("paths_agree"), format!("{} [{}] {} but {} [{}] {}", renderings[0], l0, x.brief(), sql, label, y.brief()));
                                     }
                                 }
